@@ -120,8 +120,8 @@ var templates = map[string]func() *tinkpb.KeyTemplate{
 	"KMSEnvelopeAEADKeyTemplate(AES128GCM)": func() *tinkpb.KeyTemplate {
 		return aead.KMSEnvelopeAEADKeyTemplate(keycat.FakeKMSURI, aead.AES128GCMKeyTemplate())
 	},
-	"CreatePRFBasedKeyTemplate(HKDF-SHA256,AES128GCM)":       derivT(prf.HKDFSHA256PRFKeyTemplate(), aead.AES128GCMKeyTemplate()),
-	"CreatePRFBasedKeyTemplate(HKDF-SHA256,AES256GCM-RAW)":   derivT(prf.HKDFSHA256PRFKeyTemplate(), aead.AES256GCMNoPrefixKeyTemplate()),
-	"CreatePRFBasedKeyTemplate(HKDF-SHA256,HMAC-SHA256)": derivT(prf.HKDFSHA256PRFKeyTemplate(), mac.HMACSHA256Tag128KeyTemplate()),
-	"CreatePRFBasedKeyTemplate(HKDF-SHA256,ED25519)":        derivT(prf.HKDFSHA256PRFKeyTemplate(), signature.ED25519KeyTemplate()),
+	"CreatePRFBasedKeyTemplate(HKDF-SHA256,AES128GCM)":     derivT(prf.HKDFSHA256PRFKeyTemplate(), aead.AES128GCMKeyTemplate()),
+	"CreatePRFBasedKeyTemplate(HKDF-SHA256,AES256GCM-RAW)": derivT(prf.HKDFSHA256PRFKeyTemplate(), aead.AES256GCMNoPrefixKeyTemplate()),
+	"CreatePRFBasedKeyTemplate(HKDF-SHA256,HMAC-SHA256)":   derivT(prf.HKDFSHA256PRFKeyTemplate(), mac.HMACSHA256Tag128KeyTemplate()),
+	"CreatePRFBasedKeyTemplate(HKDF-SHA256,ED25519)":       derivT(prf.HKDFSHA256PRFKeyTemplate(), signature.ED25519KeyTemplate()),
 }
